@@ -15,6 +15,8 @@ ASSUMPTIONS = [
     'key columns are homogeneous (typed BQL columns); Python raises TypeError on mixed-type keys, the model orders them by type rank',
     'CPython list.sort is stable and reverse=True keeps stability (modelled as reverse-sort-reverse; proved equal to a flipped stable sort)',
     'the whole statement is executed by the model (row loop / aggregate store, ORDER BY, projection, DISTINCT, LIMIT); the harness only resolves ORDER BY references (position / output name / column) to target positions',
+    'translator tie (C03_source_*): the library calls made by the translated statements of query_execute.py (list.sort(key=, reverse=), itertools.groupby(key=), reversed, tuple, list, set(), itertools.islice, min, operator.itemgetter, the attributes distinct/limit/table of the query) have the semantics written in coq/Model/PrimsExec.v (sort = Base/StableSort.py_sort under Order.tuple_le on the keys; a key containing None is outside the model); generator expressions and iterators are the lists of their items; Ordering.ASC/DESC (IntEnum 0/1) are False/True',
+    'translator tie: nullitemgetter itself (varargs, two nested defs) is not translated; its two inner functions are, and the outer dispatch `if items: items = (item, *items)` is PrimsExec.apply_nig (src_exec.py checks on every run that the outer function still has exactly that shape); calling it yields a closure value whose application interprets the translated inner function; the statements of execute_select before the row loops (result_types, result_indexes, ...) and the aggregate loop are not translated',
 ]
 
 
@@ -368,5 +370,7 @@ def _unjson(v, t):
 def generate():
     """translator tie: regenerate coq/Gen/SrcExec.v (uniquify, nullitemgetter's inner functions, the row loop and the
     ORDER BY .. LIMIT tail of execute_select) from the source of the imported code (py2mini, src_exec.py)"""
-    from . import gen_src
-    return gen_src.generate('exec')
+    from . import gen_src, src_exec
+    out = dict(gen_src.generate('exec'))
+    out['src_exec_outside_fragment'] = dict(getattr(src_exec.ExecTranslator, 'skipped', {}))
+    return out
